@@ -103,8 +103,9 @@ PROPS["C07"] = dict(
                "(loop invariants a*x == v, d*x == -u mod p with explicit witnesses; a halving budget bounds the 192-bit accumulators). "
                "The 128-bit field's wrappers (new, + - * / neg, inv, double, square, exp / exp_vartime over u128 exponents) are proved against "
                "those primitives, and get_root_of_unity of all three fields returns, for every admissible n, an element of order exactly 2^n.",
-    level_note="Trusted: Kani/CBMC/CaDiCaL, Verus/Z3, rustc; leaf contracts proved by Kani are assumed (external_body) "
-               "in the Verus units with the same clause text; primality of the moduli / Fermat for inv; type shims "
+    level_note="Trusted: Kani/CBMC/CaDiCaL, Verus/Z3, rustc; the Verus units assume no Kani-proved contract any more (the 64-bit field's "
+               "Montgomery reductions, + and - are proved from their bodies by both engines); the 128-bit wrapper unit f128e assumes the clauses "
+               "unit f128v proves for the raw add / sub / mul / inv (cross-unit, same back end); primality of the moduli / Fermat for inv; type shims "
                "for BaseElement in the Verus files. Functions not under contract are listed in DESIGN.md 4.C07.",
     explanation="",
     trusted=["primality of the three moduli; Fermat's little theorem (x^(M-1) = 1) for the step inv(x) = x^(M-2) of the 64-bit field",
@@ -113,7 +114,7 @@ PROPS["C07"] = dict(
     not_decided=[],
 )
 
-verus_unit("f64v", "f64", ["C07"], ["f64::BaseElement::new", "f64::Mul::mul", "traits::FieldElement::square", "f64::exp", "f64::exp_acc", "f64::inv", "f64::exp7", "f64::Div::div", "f64::Neg::neg", "f64::StarkField::as_int", "f64::From<u32>", "traits::StarkField::get_root_of_unity (64-bit instantiation: order exactly 2^n for every admissible n)"])
+verus_unit("f64v", "f64", ["C07"], ["f64::mont_red_cst (bit-precise, from its body)", "f64::mont_to_int (bit-precise, from its body)", "f64::Add::add", "f64::Sub::sub", "f64::BaseElement::new", "f64::Mul::mul", "traits::FieldElement::square", "f64::exp", "f64::exp_acc", "f64::inv", "f64::exp7", "f64::Div::div", "f64::Neg::neg", "f64::StarkField::as_int", "f64::From<u32>", "traits::StarkField::get_root_of_unity (64-bit instantiation: order exactly 2^n for every admissible n)"])
 verus_unit("f62v", "f62", ["C07"], ["f62::mul", "f62::add", "f62::sub", "f62::normalize", "f62::Add/Sub/Mul/Neg", "f62::new", "f62::as_int", "f62::double", "square", "f62::eq", "f62::exp", "traits::FieldElement::exp_vartime (u64 instantiation)", "traits::StarkField::get_root_of_unity (62-bit instantiation: order exactly 2^n for every admissible n)", "f62::inv (partial correctness: x * inv(x) == 1 for x != 0, inv(0) == 0; termination of the Euclid loops not proved)"])
 
 for _u, _fns in (("f64x", ["f64::ExtensibleField<2>::{mul,square,mul_base,frobenius}", "f64::ExtensibleField<3>::{mul,square,mul_base,frobenius}"]),
